@@ -151,6 +151,8 @@ func raceObligations(p *load.Prog, r *oblig.Run, rule string, a *e4.Analysis, ta
 				okWhy = append(okWhy, "between Lock and Unlock of a mutex in "+load.FuncName(w.Fn))
 			case w.Class == "captured" && !w.Multi && !touchedAfterSpawn(w.Fn, w.Var):
 				okWhy = append(okWhy, "captured by a single goroutine body and not touched by its creator after the go statement")
+			case singleProducerInit(p, w.Fn, w.Instr):
+				okWhy = append(okWhy, "initialisation by the single producer goroutine before it calls anything; every other access to the field is under a mutex")
 			default:
 				if why, ok := table[site]; ok {
 					okWhy = append(okWhy, "table ("+load.FuncName(w.Fn)+"): "+why)
@@ -279,6 +281,41 @@ func channelsClosed(p *load.Prog, r *oblig.Run, rule string, fns []*ssa.Function
 						check(an2)
 					}
 				}
+				// the producer is a named function started with `go` (or called) that is handed the channel: it must close
+				// that parameter on every terminating path
+				if !closed {
+					scan := []*ssa.Function{fn}
+					scan = append(scan, fn.AnonFuncs...)
+					for _, f := range scan {
+						for _, ci := range su.Calls(f) {
+							h := ci.Common().StaticCallee()
+							if h == nil || !p.IsRepoFunc(h) || len(h.Blocks) == 0 {
+								continue
+							}
+							for ai, a := range ci.Common().Args {
+								if !sameChannel(a, mk, f) || ai >= len(h.Params) {
+									continue
+								}
+								prm := h.Params[ai]
+								for _, bb := range h.Blocks {
+									for _, i2 := range bb.Instrs {
+										c, ok := i2.(*ssa.Call)
+										if !ok {
+											continue
+										}
+										if bi, isB := c.Call.Value.(*ssa.Builtin); !isB || bi.Name() != "close" || c.Call.Args[0] != ssa.Value(prm) {
+											continue
+										}
+										closed = true
+										if allReturnsThrough(h, bb) {
+											everyPath = true
+										}
+									}
+								}
+							}
+						}
+					}
+				}
 				switch {
 				case !closed:
 					o.Fail("the channel is never closed: the stage that ranges over it never finishes")
@@ -364,4 +401,90 @@ func allReturnsThrough(f *ssa.Function, via *ssa.BasicBlock) bool {
 		return false
 	}
 	return !walk(f.Blocks[0])
+}
+
+// singleProducerInit: the store initialises a field at the start of a goroutine body that is started exactly once
+// (one go statement, outside any loop, and no other caller), before that body calls anything; every other access to
+// the field anywhere in the repository sits between Lock and Unlock of a mutex. The goroutines that later touch the
+// field are all started (directly or indirectly) by this body after the store, so the start happens-after it.
+func singleProducerInit(p *load.Prog, fn *ssa.Function, ins ssa.Instruction) bool {
+	st, ok := ins.(*ssa.Store)
+	if !ok {
+		return false
+	}
+	fa, ok := st.Addr.(*ssa.FieldAddr)
+	if !ok {
+		return false
+	}
+	owner := su.FieldOwner(fa)
+	if owner == nil {
+		return false
+	}
+	// 1. started once as a goroutine, never called otherwise
+	starts := 0
+	for _, g := range p.Repo {
+		hs := loopHeaders(g)
+		for _, b := range g.Blocks {
+			for _, i2 := range b.Instrs {
+				ci, isCall := i2.(ssa.CallInstruction)
+				if !isCall {
+					continue
+				}
+				target := ci.Common().StaticCallee()
+				if mc, isMC := ci.Common().Value.(*ssa.MakeClosure); isMC {
+					target, _ = mc.Fn.(*ssa.Function)
+				}
+				if target != fn {
+					continue
+				}
+				if _, isGo := i2.(*ssa.Go); !isGo {
+					return false // also called synchronously
+				}
+				for _, h := range hs {
+					if loopBlock(b, h) || b == h {
+						return false // started in a loop: several instances
+					}
+				}
+				starts++
+			}
+		}
+	}
+	if starts != 1 {
+		return false
+	}
+	// 2. before the body calls anything
+	for _, b := range fn.Blocks {
+		for _, i2 := range b.Instrs {
+			ci, isCall := i2.(ssa.CallInstruction)
+			if !isCall {
+				continue
+			}
+			if _, isBuiltin := ci.Common().Value.(*ssa.Builtin); isBuiltin {
+				continue
+			}
+			if !su.Dominates(st, i2) {
+				return false
+			}
+		}
+	}
+	// 3. every other access is under a mutex
+	for _, g := range p.Repo {
+		for _, b := range g.Blocks {
+			for _, i2 := range b.Instrs {
+				fa2, isFA := i2.(*ssa.FieldAddr)
+				if !isFA || fa2.Field != fa.Field || su.FieldOwner(fa2) != owner {
+					continue
+				}
+				if g == fn {
+					continue
+				}
+				for _, ref := range *fa2.Referrers() {
+					if !e4.LockedAt(ref) {
+						return false
+					}
+				}
+			}
+		}
+	}
+	return true
 }
